@@ -621,11 +621,11 @@ def check_fill_seq(ctx):
             lits = q.literal_srcs()
             ok = len(apps) == 1 and len(apps[0].args) == 1
             if ok:
-                a = apps[0].args[0]
+                a = K.value_on_path(q, apps[0].args[0], stop=(el,))
                 if A.src(a) == el:
                     ok = "hasattr(%s, 'fill_into')" % el in lits and "callable(%s.fill_into)" % el in lits
                 else:
-                    rv = resolve_local(q, A.src(a), len(q.ev)) if isinstance(a, ast.Name) else a
+                    rv = a
                     ok = isinstance(rv, ast.Call) and res.canon(rv.func) == "lena.core.adapters.FillInto" and len(rv.args) == 1 and A.src(rv.args[0]) == el
             ctx.check("C05-b", ok, c, "FillSeq.__init__ keeps an element that is neither fill_into-capable nor converted with FillInto "
                       "[%s]" % q.describe(3), detail="FillSeq: element kept if it has fill_into, else FillInto(el)", construct="fillseq-conv:%s" % pkey(fn, q), path=q)
